@@ -14,6 +14,7 @@ import (
 	"github.com/icon-project/goloop/common/codec"
 	"github.com/icon-project/goloop/common/intconv"
 	"github.com/icon-project/goloop/verifshim/ev"
+	"github.com/icon-project/goloop/verifshim/hist"
 )
 
 // refSigned returns the minimal two's-complement big-endian encoding of v
@@ -81,11 +82,222 @@ func c24Int64Values() []int64 {
 	return out
 }
 
+// ---------------------------------------------------------------------------
+// History family: the result of a conversion must not depend on the calls made
+// before it (pooled temporaries, package-level scratch values, lazy tables).
+// ---------------------------------------------------------------------------
+
+func c24HistoryCalls(thorough bool) []hist.Call {
+	var calls []hist.Call
+	add := func(class, name string, want string, hasWant bool, run func() string) {
+		calls = append(calls, hist.Call{Name: name, Class: class, Run: func() string {
+			var res string
+			if p := ev.Catch(func() { res = run() }); p != "" {
+				return "panic:" + p
+			}
+			return res
+		}, Want: want, HasWant: hasWant})
+	}
+	ks := []uint{0, 7, 8, 15, 16, 31, 63, 64, 65, 71, 72, 79, 127, 128, 255, 256, 520}
+	if thorough {
+		ks = append(ks, 1, 6, 23, 24, 32, 39, 40, 47, 48, 55, 56, 62, 80, 87, 88, 135, 136, 264, 519)
+	}
+	seen := map[string]bool{}
+	for _, k := range ks {
+		for d := int64(-1); d <= 1; d++ {
+			for _, sgn := range []int64{1, -1} {
+				v := new(big.Int).Lsh(big.NewInt(1), k)
+				v.Add(v, big.NewInt(d))
+				v.Mul(v, big.NewInt(sgn))
+				vs := v.String()
+				if seen[vs] {
+					continue
+				}
+				seen[vs] = true
+				ref := refSigned(v)
+				cls := "positive"
+				if v.Sign() < 0 {
+					cls = "negative"
+				}
+				if len(ref) > 8 {
+					cls += "-wide"
+				}
+				ext := byte(0)
+				if v.Sign() < 0 {
+					ext = 0xff
+				}
+				nonMin := append([]byte{ext, ext}, ref...)
+				add("BigIntSetBytes-"+cls, fmt.Sprintf("BigIntSetBytes(%x)", ref), vs, true, func() string {
+					var x big.Int
+					return intconv.BigIntSetBytes(&x, ref).String()
+				})
+				add("BigIntSetBytes-"+cls, fmt.Sprintf("BigIntSetBytes(%x)", nonMin), vs, true, func() string {
+					var x big.Int
+					return intconv.BigIntSetBytes(&x, nonMin).String()
+				})
+				add("BigIntToBytes-"+cls, "BigIntToBytes("+vs+")", fmt.Sprintf("%x", ref), true, func() string {
+					return fmt.Sprintf("%x", intconv.BigIntToBytes(v))
+				})
+				add("FormatParseBigInt-"+cls, "ParseBigInt(FormatBigInt("+vs+"))", vs, true, func() string {
+					var x big.Int
+					if err := intconv.ParseBigInt(&x, intconv.FormatBigInt(v)); err != nil {
+						return "err"
+					}
+					return x.String()
+				})
+				add("HexInt-json-"+cls, "HexInt-json("+vs+")", vs, true, func() string {
+					var hi, back HexInt
+					hi.Set(v)
+					js, err := json.Marshal(&hi)
+					if err != nil || json.Unmarshal(js, &back) != nil {
+						return "err"
+					}
+					return back.Value().String()
+				})
+				add("HexInt-rlp-"+cls, "HexInt-rlp("+vs+")", vs, true, func() string {
+					var hi, back HexInt
+					hi.Set(v)
+					bs, err := codec.BC.MarshalToBytes(&hi)
+					if err != nil {
+						return "err"
+					}
+					if _, err := codec.BC.UnmarshalFromBytes(bs, &back); err != nil {
+						return "err"
+					}
+					return back.Value().String()
+				})
+				if v.IsInt64() {
+					i := v.Int64()
+					add("Int64-"+cls, fmt.Sprintf("Int64ToBytes/SafeBytesToInt64/FormatInt/ParseInt(%d)", i), fmt.Sprintf("%x|%d|%d", ref, i, i), true, func() string {
+						b := intconv.Int64ToBytes(i)
+						back, ok := intconv.SafeBytesToInt64(b)
+						if !ok {
+							return "not-ok"
+						}
+						p, err := intconv.ParseInt(intconv.FormatInt(i), 64)
+						if err != nil {
+							return "err"
+						}
+						return fmt.Sprintf("%x|%d|%d", b, back, p)
+					})
+				}
+			}
+		}
+	}
+	// failing inputs: no independent expectation, the result must be the same after every history
+	for _, str := range []string{"", "-", "0x", "0xzz", "-0x", "zz", "0x-1", " 0x1", "0x1 "} {
+		str := str
+		add("ParseBigInt-invalid", fmt.Sprintf("ParseBigInt(%q)", str), "", false, func() string {
+			var x big.Int
+			x.SetInt64(12345)
+			if err := intconv.ParseBigInt(&x, str); err != nil {
+				return "err"
+			}
+			return "ok:" + x.String()
+		})
+	}
+	for _, str := range []string{"0x10000000000000000", "0x8000000000000000", "-0x8000000000000001", "zz", ""} {
+		str := str
+		add("ParseInt-invalid", fmt.Sprintf("ParseInt(%q,64)", str), "", false, func() string {
+			if v, err := intconv.ParseInt(str, 64); err == nil {
+				return fmt.Sprintf("ok:%d", v)
+			}
+			return "err"
+		})
+	}
+	for _, b := range [][]byte{{0x00, 0x80, 0, 0, 0, 0, 0, 0, 0}, {0xff, 0x7f, 0xff, 0xff, 0xff, 0xff, 0xff, 0xff, 0xff}, bytes.Repeat([]byte{0xff}, 9), bytes.Repeat([]byte{0x01}, 20)} {
+		b := b
+		add("SafeBytesToInt64-overflow", fmt.Sprintf("SafeBytesToInt64(%x)", b), "", false, func() string {
+			v, ok := intconv.SafeBytesToInt64(b)
+			return fmt.Sprintf("%d,%v", v, ok)
+		})
+		add("SafeBytesToUint64-overflow", fmt.Sprintf("SafeBytesToUint64(%x)", b), "", false, func() string {
+			v, ok := intconv.SafeBytesToUint64(b)
+			return fmt.Sprintf("%d,%v", v, ok)
+		})
+	}
+	for _, js := range []string{`"zz"`, `""`, `123`, `"0x"`, `null`, `{`, `"-0xff"`} {
+		js := js
+		add("HexInt-json-invalid", "HexInt-json-decode("+js+")", "", false, func() string {
+			var h HexInt
+			if err := json.Unmarshal([]byte(js), &h); err != nil {
+				return "err"
+			}
+			return "ok:" + h.Value().String()
+		})
+	}
+	for _, bs := range [][]byte{{0xc0}, {0xf8, 0x00}, {0x82, 0x01}, {0xb8}, {}, {0xc1, 0x01}} {
+		bs := bs
+		add("HexInt-rlp-invalid", fmt.Sprintf("HexInt-rlp-decode(%x)", bs), "", false, func() string {
+			var h HexInt
+			if _, err := codec.BC.UnmarshalFromBytes(bs, &h); err != nil {
+				return "err"
+			}
+			return "ok:" + h.Value().String()
+		})
+	}
+	return calls
+}
+
+type c24HistCase struct {
+	History  []string `json:"history"`
+	Expected string   `json:"expected"`
+}
+
+func c24History(r *ev.Run) bool {
+	calls := c24HistoryCalls(r.Thorough())
+	var triple []int
+	if r.Thorough() {
+		for i := range calls {
+			if i%25 == 0 {
+				triple = append(triple, i)
+			}
+		}
+	}
+	restore := hist.Pin()
+	defer restore()
+	n, complete := hist.Explore(calls, triple, 1<<16, r.Expired, func(sig, detail string, names []string, expected string) {
+		r.Violation(sig, detail, c24HistCase{History: names, Expected: expected})
+	})
+	r.Eval(n)
+	for i, c := range calls {
+		r.Nontrivial(fmt.Sprintf("history|%d|%s", i, c.Name))
+	}
+	r.Set("history_alphabet", len(calls))
+	r.Set("history_triple_alphabet", len(triple))
+	r.Set("histories", n)
+	return complete
+}
+
 func TestVerifC24(t *testing.T) {
 	r := ev.Start(t, "C24", "exploration")
-	r.Rule("int64/uint64: all of [-2^17,2^17], ±2^k+δ (k<=63,|δ|<=2), all 8-byte two-run patterns over {00,01,7f,80,ff}; big.Int ±(2^k+δ), k<=520 (quick 264), |δ|<=2; non-trivial = distinct value whose minimal encoding is compared with the independent reference")
+	r.Rule("int64/uint64: all of [-2^17,2^17], ±2^k+δ (k<=63,|δ|<=2), all 8-byte two-run patterns over {00,01,7f,80,ff}; big.Int ±(2^k+δ), k<=520 (quick 264), |δ|<=2; history family: on one pinned goroutine (single P, collector off) every ordered pair (thorough: also triples over every 25th call) of calls from an alphabet of conversions — BigIntSetBytes of minimal and non-minimal encodings, BigIntToBytes, FormatBigInt/ParseBigInt, HexInt JSON and RLP round trips, the int64 conversions — on ±(2^k+δ), k in {0,7,8,15,16,31,63,64,65,71,72,79,127,128,255,256,520} (thorough 36 values of k), |δ|<=1, i.e. negative and positive values of 1..66 bytes incl. many negative widths above 8 bytes, plus failing parses/decodes: the last result must equal the independent expectation (valid calls) resp. be the same after every history (failing calls); non-trivial = distinct value whose minimal encoding is compared with the independent reference")
 	r.Assume("reference = full-width two's complement with redundant sign bytes stripped")
 	fail := func(sig, detail string, c interface{}) { r.Violation(sig, detail, c) }
+	if ev.Replaying() {
+		// only history cases are replayable by file; the value cases are re-run by the full check
+		var hc c24HistCase
+		if ev.ReplayCase(&hc); len(hc.History) > 0 {
+			calls := c24HistoryCalls(true)
+			byName := map[string]int{}
+			for i, cl := range calls {
+				byName[cl.Name] = i
+			}
+			var idx []int
+			for _, n := range hc.History {
+				idx = append(idx, byName[n])
+			}
+			restore := hist.Pin()
+			got := hist.Sequence(calls, idx)
+			restore()
+			r.Eval(1)
+			if got != hc.Expected {
+				r.Violation("result-depends-on-history:replay", fmt.Sprintf("history %v: last call returned %s, expected %s", hc.History, got, hc.Expected), hc)
+			}
+			r.Finish(false)
+			return
+		}
+	}
 
 	vals := c24Int64Values()
 	codecs := []codec.Codec{codec.BC}
@@ -285,5 +497,5 @@ func TestVerifC24(t *testing.T) {
 	r.Sample(map[string]interface{}{"uint64": uint64(math.MaxUint64), "encoding": fmt.Sprintf("%x", intconv.Uint64ToBytes(math.MaxUint64))})
 	r.Sample(map[string]interface{}{"big": "-(2^64+1)", "encoding": fmt.Sprintf("%x", intconv.BigIntToBytes(new(big.Int).Neg(new(big.Int).Add(new(big.Int).Lsh(big.NewInt(1), 64), big.NewInt(1)))))})
 	r.Set("int64_values", len(vals))
-	r.Finish(true)
+	r.Finish(c24History(r))
 }
